@@ -1,3 +1,4 @@
+import random
 """crash — enumeration of crash / torn-write points of a history and the before-or-after oracle."""
 from hist import *
 
@@ -147,7 +148,13 @@ def enumerate_crashes(pair, ops, res, torn=False, rnd=None, max_subsets=12, only
         if only_kinds and op[0] not in only_kinds:
             continue
         cuts = []
-        for c in range(lo, hi + 1):
+        cs = list(range(lo, hi + 1))
+        if len(cs) > 60:
+            # a very long journal (a batch of hundreds of blocks: one write per tree node): the cuts around the protocol steps (data,
+            # entry, first pages / nodes; last nodes, header slot, truncate) and a sample of the ones in between
+            cs = sorted(set(cs[:8] + cs[-8:] + [(rnd or random).choice(cs) for _ in range(14)]))
+            res.count("sampled-long-journals")
+        for c in cs:
             cuts.append(("fork X D %d" % c, "cut=%d" % c, c))
         nsub = 0
         for upto, skip in group_subsets(allops, lo, hi):
